@@ -371,6 +371,7 @@ func worker(kind string, data json.RawMessage) any {
 		if c.Kind == "scaled" {
 			r := mon.NewRand(c.Seed).SplitN(i)
 			var prev string
+			prevSteps := 0
 			for bi, bound := range c.Bounds {
 				g := gen.NewGen(mon.NewRand(c.Seed).SplitN(i), gen.MixControl) // same stream for every bound: same program shape
 				_ = r
@@ -379,7 +380,11 @@ func worker(kind string, data json.RawMessage) any {
 				if bi == 0 {
 					o.Programs++
 				}
-				want, ok, steps, err := model(p, 40000000)
+				if bound > 3000 && prevSteps > 120000 {
+					break // the largest bound would cost the model more than ~4*10^6 steps for this body
+				}
+				want, ok, steps, err := model(p, 8000000)
+				prevSteps = steps
 				if err != nil {
 					o.Harness = append(o.Harness, err.Error()+"\n"+src)
 					break
@@ -509,17 +514,17 @@ func drive(d *mon.Driver, replay string) int {
 	} else {
 		r := d.Rand("programs")
 		seed1, seed2 := r.Uint64(), r.Uint64()
-		total := d.N(6000, 300000)
+		total := d.N(4000, 300000)
 		per := 250
 		for from := 0; from < total; from += per {
 			mix := []int{1, 1, 3, -1}[(from/per)%4]
 			cases = append(cases, mon.NewCase(fmt.Sprintf("code-%d", from), "code+depth", caseData{Batch: eng.Batch{Seed: seed1, From: from, N: per, Mix: mix}, Kind: "code+depth"}))
 		}
-		nScaled := d.N(240, 6000)
+		nScaled := d.N(160, 6000)
 		perS := 10
 		for from := 0; from < nScaled; from += perS {
 			bounds := []int64{10, 3000}
-			if (from/perS)%3 == 0 || d.Thorough() {
+			if (from/perS)%4 == 0 || d.Thorough() {
 				bounds = []int64{10, 3000, 100000}
 			}
 			cases = append(cases, mon.NewCase(fmt.Sprintf("scaled-%d", from), "scaled", caseData{Batch: eng.Batch{Seed: seed2, From: from, N: perS}, Kind: "scaled", Bounds: bounds}))
@@ -588,5 +593,5 @@ func drive(d *mon.Driver, replay string) int {
 	if replay != "" {
 		return d.Finish(0, 0)
 	}
-	return d.Finish(d.N(4000, 200000), d.N(800, 8000))
+	return d.Finish(d.N(2500, 200000), d.N(600, 8000))
 }
